@@ -252,20 +252,24 @@ fn bombs() -> Vec<Hostile> {
         if c.is_empty() {
             continue;
         }
-        let d = Dict {
-            app_version: "x".into(),
-            source_checksum: crate::util::b2(b"x").to_vec(),
-            source_total_size: 100,
-            params: Some(enc::params_of(&Cfg::fixed(100), 16)),
-            compression: Some((*ct, 1)),
-            rebuild_order: vec![0],
-            descs: vec![Desc { checksum: vec![9; 16], archive_size: c.len() as u32, archive_offset: 0, source_size: 100 }],
-            metadata: vec![],
-            unknown_fields: 0,
-        };
-        let mut hz = assemble(&format!("bomb/{}(1GiB declared 100B)", name), &d, None, c);
-        hz.declared = 100 + c.len() as u64;
-        out.push(hz);
+        // Declared sizes below and above the pieces a decoder hands out at a time (a few
+        // KiB .. 128 KiB): the bound is on the accumulated output, not on one piece.
+        for (dname, declared) in [("100B", 100u32), ("64KiB", 64 << 10), ("1MiB", 1 << 20)] {
+            let d = Dict {
+                app_version: "x".into(),
+                source_checksum: crate::util::b2(b"x").to_vec(),
+                source_total_size: declared as u64,
+                params: Some(enc::params_of(&Cfg::fixed(declared as usize), 16)),
+                compression: Some((*ct, 1)),
+                rebuild_order: vec![0],
+                descs: vec![Desc { checksum: vec![9; 16], archive_size: c.len() as u32, archive_offset: 0, source_size: declared }],
+                metadata: vec![],
+                unknown_fields: 0,
+            };
+            let mut hz = assemble(&format!("bomb/{}(1GiB declared {})", name, dname), &d, None, c);
+            hz.declared = declared as u64 + c.len() as u64;
+            out.push(hz);
+        }
     }
     out
 }
